@@ -141,6 +141,14 @@ CHECKS = {
         note="The reference resolver encodes one rule taken from the test-suite (a context-chosen backend replaced by the thread backend takes the context's n_jobs with it). Thread interleavings are at operation granularity (real threads stepped by semaphores).",
         design_ref="2/C17",
     ),
+    "C11": dict(
+        category="model_checking",
+        engine="E1-pysched (fs mode) + E3-fs-seam",
+        technique="stateless model checking at file-system-call granularity: pre-emption-bounded exploration of all interleavings of 2-3 actors (call / reduce_size / clear) on one real cache directory, both directory orders, two process models",
+        text="Actors drawn from {cached call with equal or different arguments, reduce_size by items / bytes, clear, call with changed source} run as real threads under the baton scheduler; every C-level file-system entry point (sys.monitoring CALL events) is a scheduling point. All interleavings with <= 2 (thorough 3) pre-emptions are executed on a fresh copy of each of three initial directory states, with ascending and descending directory listings, with actors sharing the cached function object (threads) or owning private function / Memory objects (processes). Oracle: correct value, no exception in any actor, every output.pkl present at quiescence loads to a complete result.",
+        note="Granularity is one file-system call; the import system's own file-system calls (made under real interpreter locks) are not scheduling points. The 'processes' model is emulated inside one interpreter (private function objects and function-table entries; the pid in temporary names is shared). Call-vs-clear() races are listed in known_findings.json.",
+        design_ref="1.1, 1.3, 2/C11",
+    ),
 }
 
 NOT_BUILT_REASON = "check not built yet in this revision of /verif (planned in DESIGN.md section 2; model checking applies)"
